@@ -23,8 +23,9 @@ impl Huge {
     /// 2: dense prefix of 2^20 bits, then ones at prescribed huge gaps
     pub fn new(j: u64) -> Huge {
         let delta = [65usize, 4097, 0, 1, 64, (1 << 31) + 12345][(j / 5) as usize % 6];
-        let pattern = if j >= 2000 { 6 } else if j >= 1000 { 5 } else { j % 5 };
+        let pattern = if j >= 3000 { 7 } else if j >= 2000 { 6 } else if j >= 1000 { 5 } else { j % 5 };
         let len = match pattern {
+            7 => (1usize << 32) + [(1usize << 30) + 64, 1 << 20, (1usize << 31) + 12345, (1usize << 32) + 4097][(j - 3000) as usize % 4],
             6 => (1usize << 32) + (1 << 17) + [0usize, 77, 4096, 1 << 20][(j / 4) as usize % 4],
             5 => (1usize << 33) + (1 << 30) + 7 + (j as usize % 3) * 64,
             3 => (1usize << 33) + (1 << 20),
@@ -81,6 +82,19 @@ impl Huge {
                 }
                 for p in [(1usize << 32) + 5, (1usize << 32) + 700, (1usize << 33) + 3, (1usize << 33) + 64, (1usize << 33) + 65, (1usize << 33) + 500, (1usize << 33) + 1000, (1usize << 33) + 70_000, len - 1] {
                     set(&mut words, p);
+                }
+            }
+            7 => {
+                // irregular dense contents (density 1/2, 1/4, 3/4) with a long second (and third) upper block: the
+                // number of ones before an upper block is then no multiple of anything
+                let d = (j - 3000) / 4 % 3;
+                for w in words.iter_mut() {
+                    let (a, b) = (next() as usize, next() as usize);
+                    *w = match d {
+                        0 => a,
+                        1 => a & b,
+                        _ => a | b,
+                    };
                 }
             }
             6 => {
@@ -242,6 +256,16 @@ impl Huge {
             x ^= x << 17;
             v.push(x as usize % (count + 2));
         }
+        // dense vectors: many ranks whose answer lies beyond 2^32
+        let r32 = self.rank(1 << 32);
+        if count > r32 + 10_000 {
+            for _ in 0..3000 {
+                x ^= x << 13;
+                x ^= x >> 7;
+                x ^= x << 17;
+                v.push(r32 + x as usize % (count - r32));
+            }
+        }
         v
     }
 }
@@ -333,6 +357,31 @@ pub fn select_case(cx: &mut Ctx, j: u64) -> R {
         b - a
     };
     cx.label_if(h.num_ones < 100 && maxgap > 1 << 32, "span>2^32");
+    if j >= 3000 {
+        cx.label("dense-two-upper-blocks");
+        macro_rules! small {
+            ($n:literal, $w:literal) => {{
+                let s = cx.must("SelectSmall", || SelectSmall::<$n, $w, _>::new(RankSmall::<$n, $w, _>::new(bv.clone())))?;
+                check_select(cx, &format!("SelectSmall<{},{}>", $n, $w), &s, &h, seed)?;
+                let z = cx.must("SelectZeroSmall", || SelectZeroSmall::<$n, $w, _>::new(RankSmall::<$n, $w, _>::new(bv.clone())))?;
+                check_select_zero(cx, &format!("SelectZeroSmall<{},{}>", $n, $w), &z, &h, seed)?;
+            }};
+        }
+        match (j - 3000) % 5 {
+            0 => small!(2, 9),
+            1 => small!(1, 11),
+            2 => small!(1, 9),
+            3 => small!(3, 13),
+            _ => {
+                small!(1, 10);
+                let s = cx.must("SelectAdapt", || SelectAdapt::new(AddNumBits::from(bv.clone()), 3))?;
+                check_select(cx, "SelectAdapt", &s, &h, seed)?;
+                let s = cx.must("Select9", || Select9::new(Rank9::new(bv.clone())))?;
+                check_select(cx, "Select9", &s, &h, seed)?;
+            }
+        }
+        return Ok(());
+    }
     if j >= 2000 {
         // mixed span classes next to a 64-bit span
         let complemented = ((j - 2000) / 2) % 2 == 1;
